@@ -1,4 +1,6 @@
 import Pyunicorn.Model.Surrogates
+import Pyunicorn.Model.SurrogatesKernelW
+import Pyunicorn.Model.SurrogatesObject
 import Pyunicorn.Generated.ArithC15
 /-!
 Round 5 (property C15): loop-level model of the walk kernels `_twin_surrogates_s` and
@@ -129,5 +131,36 @@ def walkKernelS (N : Nat) (u : Nat → Rat) (tws : List (List (List Nat))) (c : 
 /-- `_twin_surrogates_r` on the source's expressions: `n_surrogates` trajectories on one table -/
 def walkKernelR (N : Nat) (tw : List (List Nat)) (u : Nat → Rat) (ns c : Nat) :=
   walkRowsK walkArithR N u (List.replicate ns tw) 0 c
+
+/-- the read-out `surrogates[i, j] = original_data[i, k]` / `surrogates[i, j, :] = embedding[k, :]`
+with the kernel's `int k` -/
+def gatherInt (xs : List α) : List Int → Option (List α)
+  | [] => some []
+  | i :: is =>
+    match idxInt xs i, gatherInt xs is with
+    | some x, some r => some (x :: r)
+    | _, _ => none
+
+/-- **`Surrogates.twin_surrogates` on the source's expressions throughout**: embedding kernel,
+`twins()` on `np.empty` work arrays with the `bits`-bit counter and the source's subscripts
+(`twinsMethodW`), the walk kernel `_twin_surrogates_s` statement by statement (`walkKernelS`), and
+the read-out in the kernel's `int k` -/
+def twinSurrogatesSrc (bits : Nat) (data : List (List Rat)) (dim delay : Nat) (thr : Rat) (md : Nat)
+    (u : Nat → Rat) (g : Nat → Nat → Bool) (gn : Nat → Int) : Option (List (List Rat)) :=
+  match data.mapM (embedK · dim delay) with
+  | none => none
+  | some embs =>
+    let nT := (ArithC15.twinLen ((data.headD []).length : Int) dim delay).toNat
+    match walkKernelS nT u (twinsMethodW bits thr md embs g gn) 0 with
+    | none => none
+    | some (idx, _) => rowsM gatherInt data idx
+
+/-- **`RecurrencePlot.twin_surrogates` on the source's expressions**: `twins()` with the subscripts
+of `_twins_r` (`rpTwinsKW`), the walk kernel `_twin_surrogates_r` statement by statement -/
+def rpTwinSurrogatesSrc (md ns : Nat) (R : List (List Bool)) (emb : List (List Rat))
+    (u : Nat → Rat) : Option (List (List (List Rat))) :=
+  match walkKernelR emb.length (rpTwinsKW md R) u ns 0 with
+  | none => none
+  | some (idx, _) => idx.mapM (gatherInt emb)
 
 end Pyunicorn.Surrogates
